@@ -1091,7 +1091,7 @@ pub async fn run_seq(cfg: RunCfg) -> RunResult {
         // inexact (zone / n-gram) indices are exercised by C20's check only
         _ => r.gen.inexact_indices = false,
     }
-    let drawn = r.rng.range(4, 12) as u64;
+    let drawn = if cfg.thorough() { r.rng.range(8, 24) } else { r.rng.range(4, 12) } as u64;
     let nsteps = cfg.max_steps.map(|m| m.min(drawn)).unwrap_or(drawn);
     let mut state_hashes = BTreeSet::new();
     let mut cache_sc = if cfg.prop == "C38" { r.cache_scenario_init().await } else { None };
